@@ -5,6 +5,7 @@ import OnlVerif.Util.TimerReplay
 import OnlVerif.Net.StampReplay
 import OnlVerif.Net.RouteReplay
 import OnlVerif.Tcp.Replay
+import OnlVerif.Net.MultiQueueReplay
 import OnlVerif.Util.RtReplay
 /-! Line-protocol driver: `driver <mode>` reads cases on stdin and prints the model's observations. -/
 
@@ -17,6 +18,7 @@ def main (args : List String) : IO UInt32 := do
   | ["timer"] => timerLoop stdin none; return 0
   | ["stamp"] => stampLoop stdin; return 0
   | ["route"] => routeLoop stdin; return 0
+  | ["mq"] => mqLoop stdin; return 0
   | ["tcpsink"] => tcpLoop stdin "tcpsink"; return 0
   | ["tcpsender"] => tcpLoop stdin "tcpsender"; return 0
   | ["rt"] => rtLoop stdin {}; return 0
